@@ -182,6 +182,9 @@ class Prover:
                 upd(ua * ubb)
             if o.startswith("Sub") and ua is not None:
                 upd(ua)
+                # a - c with a constant c the value is known to reach (no wrap): at most ub(a) - c
+                if b.op == "const" and isinstance(b.args[1], int) and b.args[1] >= 0 and self.lb(a, facts, d + 1) >= b.args[1]:
+                    upd(ua - b.args[1])
         elif op == "phi":
             ops = self.an.phi_ops.get(t)
             if ops:
